@@ -113,9 +113,10 @@ DIRECTED = [
           "1040_recovery_rebate_credit_wkst.either_ssn_before_due_date": "yes", "1040_recovery_rebate_credit_wkst.eip_3_amount": "0.00",
           "w-2:0.box_1": "70000.00", "w-2:0.box_2": "8000.00"}),
     # NC return of somebody who owes no NC tax at all (interest only, below the NC deduction): gates must not hide behind a zero tax
-    ({"status": "Single", "dependents": 0, "wage_scale": 20000, "nc": True},
+    ({"status": "MarriedFilingJointly", "dependents": 0, "wage_scale": 20000, "nc": True},      # (the joint NC deduction leaves room for the odd extra income)
      {"w-2": 0, "1099-int": 1, "1098": 1},
-     {"1099-int:0.box_1": "11500.00", "nc_d-400.no_consumer_use_tax": "yes"}),
+     {"1099-int:0.box_1": "11500.00", "nc_d-400.no_consumer_use_tax": "yes", "nc_d-400.additions_to_agi": "no", "nc_d-400.deductions_from_agi": "no",
+      "nc_d-400.try_itemizing": "no"}),
     # a high earner (Additional Medicare Tax, Form 8959) with withholding that is not from a W-2
     ({"status": "Single", "dependents": 0, "wage_scale": 230000},
      {}, {"w-2:0.box_1": "245050.00", "w-2:0.box_3": "147000.00", "w-2:0.box_5": "245050.00", "w-2:0.box_2": "48000.00", "w-2:0.box_6": "3958.68",   # taxable income just below the 35 % bracket of 2023
